@@ -344,8 +344,9 @@ class DeclGen:
   """Declarations and units in the emitted dialect (reader naming convention), independent of any program.
   `known` = fingerprints of listed findings: shapes that trigger an unlisted finding are not generated."""
 
-  def __init__(self, r, ids, gen, env_names, known):
+  def __init__(self, r, ids, gen, env_names, known, fixed=False):
     self.r, self.ids, self.gen, self.known = r, ids, gen, known
+    self.fixed = fixed          # the tree under test has fixes/C05-property-decorator-printed-twice.patch
     self.tvars = env_names
     self.env = [ids.id(x) for x in env_names]
     self.n = 0
@@ -450,7 +451,7 @@ class DeclGen:
       # get a second @property line (findings): generated only when listed
       ret = self.ty(1)
       param = any(x[0] == "V" for x in g.subterms(ret))
-      if param and "property-decorator-duplicated" not in self.known:
+      if param and not self.fixed and "property-decorator-duplicated" not in self.known:
         ret = ("N", "p", ids.id("int"))
         param = False
       if not param and "property-method-reread-as-constant" not in self.known:
@@ -458,8 +459,6 @@ class DeclGen:
       sigs = [(([(ids.id("self"), 1, 0, ("A",), None)], None, None, ret), [])]
     else:
       sigs = [self.fsig(tcls, first) for _ in range(nsig)]
-    if name == ids.id("__init__") and "init-any-return-reread-as-none" not in self.known:
-      sigs = [((s[0], s[1], s[2], ("N", "p", 0) if s[3] == ("A",) else s[3]), e) for (s, e) in sigs]
     q = r.random()
     ab = int(q < 0.15)
     fin = int(0.15 <= q < 0.25)
@@ -584,19 +583,30 @@ def collapse_single(t):
 FP_PROP2 = "property-decorator-duplicated"
 FP_PROPCONST = "property-method-reread-as-constant"
 FP_ALIASNONE = "alias-to-none-reread-as-constant"
-FP_INITANY = "init-any-return-reread-as-none"
 
 
-def unit_features(ids, u):
+PROBE = "from typing import TypeVar\nT = TypeVar('T')\nclass A:\n    @property\n    def y(self) -> T: ...\n"
+
+
+def probe_fixed(impl):
+  """Which variant of VisitFunction does the tree under test implement?  (reproducer of property-decorator-duplicated)"""
+  try:
+    return impl.print(impl.parse(PROBE)).count("@property") == 1
+  except Exception:  # pylint: disable=broad-except
+    return False
+
+
+def unit_features(ids, u, fixed=False):
   """Which listed findings a generated unit triggers (computed on the generated term, independent of the model)."""
   f = set()
   def funcs(fs, in_class):
     for fn in fs:
       if fn[1] == 3:
         param = any(any(x[0] == "V" for x in g.subterms(s[0][3])) or (s[0][0] and s[0][0][0][3] != ("A",)) for s in fn[6])
-        f.add(FP_PROP2 if param else FP_PROPCONST)
-      if ids.s(fn[0]) == "__init__" and any(s[0][3] == ("A",) for s in fn[6]):
-        f.add(FP_INITANY)
+        if not param:
+          f.add(FP_PROPCONST)
+        elif not fixed:
+          f.add(FP_PROP2)
   def klass(c):
     funcs(c[7], True)
     for x in c[5]:
@@ -645,13 +655,14 @@ def check_units(res, model, impl, ids, dg, n_units, hist, report, unknown_violat
     except AssertionError:
       continue
     units.append((u, a))
-  outs = model.run([" ".join(ser_unit(u, ["U"])) for u, _ in units])
+  fixed = dg.fixed
+  outs = model.run([" ".join(ser_unit(u, ["U", str(int(fixed))])) for u, _ in units])
   n_wf = 0
   for (u, a), mo in zip(units, outs):
     if mo.startswith("ERROR"):
       disagree("decl-model-error", mo[:200])
       continue
-    mstmts, mparse, mnorm, wf, mstmts2, mparse2 = [p.strip() for p in mo.split("|")]
+    mstmts, mparse, mnorm, wf, mstmts2, mparse2, mstable = [p.strip() for p in mo.split("|")]
     mstmts, mstmts2 = canon(parse_stmts_words(mstmts)), canon(parse_stmts_words(mstmts2))
     mparse, mnorm, mparse2 = canon(parse_unit_words(mparse)), canon(parse_unit_words(mnorm)), canon(parse_unit_words(mparse2))
     try:
@@ -687,7 +698,7 @@ def check_units(res, model, impl, ids, dg, n_units, hist, report, unknown_violat
         tb = "?"
     if tb != "?" and rstmts == mstmts and tb != mparse:
       disagree("unit-parse", "text=%s\nreal=%r\nmodel=%r err=%s" % (body[:500], first_diff(tb, mparse), None, o["err"]))
-    feats = unit_features(ids, u)
+    feats = unit_features(ids, u, fixed)
     if wf == "1":
       n_wf += 1
       hist["unit:wf"] += 1
@@ -695,6 +706,11 @@ def check_units(res, model, impl, ids, dg, n_units, hist, report, unknown_violat
         disagree("unit-norm", "parse(print u) <> norm u in the model: %s" % body[:300])
       if o["parse"] and o["text2"] is not None and tb != "?":
         rstmts2 = canon(text_to_stmts(ids, strip_imports(o["text2"])))
+        # monitor of print_unit_fixed_point_partial: stable_unit implies the real text fixed point (declarations part)
+        if mstable == "1":
+          hist["unit:stable"] += 1
+          if strip_imports(o["text2"]).rstrip("\n") != body.rstrip("\n"):
+            disagree("stable_unit-not-sufficient", "text=%s\nreprinted=%s" % (body[:600], strip_imports(o["text2"])[:600]))
         if rstmts2 != mstmts2:
           disagree("unit-reprint", "text=%s\ndiff=%r" % (body[:400], first_diff(rstmts2, mstmts2)))
         else:
@@ -755,8 +771,8 @@ def check_units(res, model, impl, ids, dg, n_units, hist, report, unknown_violat
       fps, unexpl = explain_diff(text, o["text2"] or "")
       t1, t2 = strip_imports(text).split("\n"), strip_imports(o["text2"] or "").split("\n")
       mine = set()
-      if FP_PROP2 in feats or FP_PROPCONST in feats or FP_ALIASNONE in feats or FP_INITANY in feats:
-        mine = feats & {FP_PROP2, FP_PROPCONST, FP_ALIASNONE, FP_INITANY}
+      if FP_PROP2 in feats or FP_PROPCONST in feats or FP_ALIASNONE in feats:
+        mine = feats & {FP_PROP2, FP_PROPCONST, FP_ALIASNONE}
         unexpl = []
       if unexpl or not (fps or mine):
         for cause in diff_causes(unexpl)[:2]:
